@@ -578,7 +578,8 @@ def check_c12(run):
     if run.tier == "quick":
         cs = [("1d-h5", fmm_constants(1, 5, POOL_1D_H5[:6], bss=(1, 2, 20), stops=(0, 1, 2, 3, 4, 5), hists=hists)),
               ("2d-h4", fmm_constants(2, 4, POOL_2D_H4[:5], bss=(2, 20), stops=(0, 2, 3, 4), hists=hists)),
-              ("3d-h3", fmm_constants(3, 3, POOL_3D_H3[:4], bss=(2,), stops=(0, 2, 3), hists=hists))]
+              ("3d-h3", fmm_constants(3, 3, POOL_3D_H3[:4], bss=(2,), stops=(0, 2, 3), hists=hists)),
+              ("tsm-1d-h4", fmm_constants(1, 4, [0, 5, 7], mode="tsm", maxparts=2, bss=(1, 2), stops=(0, 2, 3, 4), hists=hists))]
     else:
         cs = [("1d-h5", fmm_constants(1, 5, POOL_1D_H5[:8], bss=(1, 2, 3, 20), stops=(0, 1, 2, 3, 4, 5), hists=hists)),
               ("2d-h4", fmm_constants(2, 4, POOL_2D_H4[:7], bss=(1, 2, 20), stops=(0, 1, 2, 3, 4), hists=hists)),
@@ -1000,7 +1001,8 @@ def check_c03(run):
               ("tsm-1d-h5", fmm_constants(1, 5, POOL_1D_H5[:4], mode="tsm", bss=(1, 2, 20))),
               ("1d-h4-stops", fmm_constants(1, 4, [0, 1, 2, 5, 6, 7], bss=(1, 2, 20), stops=(0, 1, 3, 4))),
               # mutually adjacent leaves in separate groups: one source group shared by several direct-pass tasks
-              ("2d-h3-adj", fmm_constants(2, 3, [0, 1, 2, 3, 6, 12], bss=(1, 2, 20)))]
+              ("2d-h3-adj", fmm_constants(2, 3, [0, 1, 2, 3, 6, 12], bss=(1, 2, 20))),
+              ("per-1d-h4", fmm_constants(1, 4, [0, 3, 4, 7], periodic=True, stops=(1,), bss=(1, 2, 20)))]
     if not q:
         shared += [("2d-h4", fmm_constants(2, 4, POOL_2D_H4[:7], bss=(1, 2, 3, 20), hists=("full", "stages3"))), ("tsm-2d-h4", fmm_constants(2, 4, POOL_2D_H4[:4], mode="tsm", bss=(1, 2)))]
     jobs = [("omp-" + n, c, "omp") for n, c in omp_configs(run.tier)]
@@ -1056,9 +1058,11 @@ def check_c09(run):
           ("tsm-2d-h4", fmm_constants(2, 4, POOL_2D_H4[:4 if q else 5], mode="tsm", bss=(1, 2, 20), stops=(2,), hists=("full", "stages3"))),
           ("tsm-3d-h3", fmm_constants(3, 3, POOL_3D_H3[:3 if q else 4], mode="tsm", bss=(1, 2), stops=(0, 2))),
           ("tsm-1d-h4-multi", fmm_constants(1, 4, [0, 3, 4, 7] if q else [0, 1, 3, 4, 7], mode="tsm", maxper=2, maxparts=4 if q else 5, bss=(1, 2, 20)))]
-    if not q:
-        cs.append(("tsm-4d-h3", fmm_constants(4, 3, POOL_4D_H3[:3], mode="tsm", bss=(1, 2))))
+    cs.append(("tsm-4d-h3", fmm_constants(4, 3, POOL_4D_H3[:2 if q else 3], mode="tsm", bss=(1, 2))))
+    cs.append(("tsm-1d-h4-per", fmm_constants(1, 4, [0, 3, 4, 7], mode="tsm", periodic=True, stops=(1,), maxparts=3, bss=(1, 2))))
     run_fmm_configs(run, "C09", cs)
+    # code -> spec: target/source sessions on large random trees (sources and targets of different shapes, staged executes, moves + rebuild)
+    trace_campaign(run, "C09", run.tier, modes=(1,), events=4)
     # the OpenMP target/source executor under the schedules of C03
     pairs, mism, _ = omp_campaign(run, "C09-omp-tsm-1d-h5", fmm_constants(1, 5, POOL_1D_H5[:4 if q else 6], mode="tsm", bss=(1, 2, 20)), run.tier, graphs=0)
     report_mismatches(run, "C09", "C09-omp-tsm-1d-h5", pairs, [(k, re.sub(r"-(immediate|deferred|tlc)-.*$", "", key), "%s [%s]" % (t, key)) for k, key, t in mism],
